@@ -51,8 +51,10 @@ Covered(validator, a) ==
   CASE a.grp = "ok"       -> TRUE
     [] a.grp = "caflag"   -> \/ a.pos >= 1
                              \/ (validator = "openssl" /\ a.chain[1].isCa.k # "NoCa")
+                             \/ (validator = "openssl" /\ a.chain[1].ku = <<>>)   \* ... and no key usage speaks for it either
     [] a.grp = "pathlen"  -> validator = "openssl" \/ a.pos >= 1
-    [] a.grp = "time"     -> validator = "openssl" \/ a.pos >= 1
+    (* webpki represents time as unsigned seconds since 1970: a certificate dated earlier is unreadable to it (BadDerTime) *)
+    [] a.grp = "time"     -> validator = "openssl" \/ (a.pos >= 1 /\ \A i \in DOMAIN a.chain : a.chain[i].nbDay >= 0)
     [] a.grp = "nc"       -> TRUE
     [] a.grp = "eku"      -> TRUE
     [] a.grp = "certsign" -> validator = "openssl"
